@@ -7,67 +7,63 @@ namespace ElaVerif.Caches
 section assoc
 variable {κ : Type} [DecidableEq κ] {α : Type}
 
-theorem lookup_cons_filter (l : List (κ × α)) (k k' : κ) (v : α) :
-    ((k, v) :: l.filter (fun p => p.1 ≠ k)).lookup k' = if k' = k then some v else l.lookup k' := by
-  by_cases h : k' = k
-  · subst h; simp [List.lookup]
-  · have hb : (k' == k) = false := by simp [h]
-    simp only [List.lookup, hb, h, ↓reduceIte]
-    induction l with
-    | nil => rfl
-    | cons a l ih =>
-      by_cases ha : a.1 = k
-      · have : (k' == a.1) = false := by simp [ha, h]
-        simp [List.filter, ha, List.lookup, this, ih]
-      · simp only [List.filter, ha, ne_eq, not_false_eq_true, decide_true, List.lookup]
-        split <;> simp_all
-
-theorem lookup_filter_key (l : List (κ × α)) (f : κ → Bool) (k : κ) :
-    (l.filter (fun p => f p.1)).lookup k = if f k then l.lookup k else none := by
+theorem lookup_dropKey (l : List (κ × α)) (e k : κ) :
+    (dropKey l e).lookup k = if k = e then none else l.lookup k := by
+  unfold dropKey
   induction l with
   | nil => simp
   | cons a l ih =>
-    by_cases hk : k = a.1
-    · subst hk
-      by_cases hf : f a.1 <;> simp [List.filter, hf, List.lookup, ih]
-    · have hb : (k == a.1) = false := by simp [hk]
-      by_cases hf : f a.1 <;> simp [List.filter, hf, List.lookup, hb, ih]
+    by_cases hae : a.1 = e
+    · have : (a.1 != e) = false := by simp [hae]
+      simp only [List.filter, this, ih]
+      by_cases hk : k = e
+      · simp [hk]
+      · have hb : (k == a.1) = false := by simp [hae, hk]
+        simp [hk, List.lookup, hb]
+    · have : (a.1 != e) = true := by simp [hae]
+      simp only [List.filter, this, List.lookup]
+      by_cases hka : k = a.1
+      · subst hka; simp [hae]
+      · have hb : (k == a.1) = false := by simp [hka]
+        simp only [hb, ih]
 
-theorem lookup_filter_ne (l : List (κ × α)) (e k : κ) :
-    (l.filter (fun p => p.1 ≠ e)).lookup k = if k = e then none else l.lookup k := by
-  have := lookup_filter_key l (fun x => decide (x ≠ e)) k
-  simp only [ne_eq, decide_not, Bool.not_eq_true', decide_eq_false_iff_not] at this
-  rw [this]
-  by_cases h : k = e <;> simp [h]
+theorem lookup_setKey (l : List (κ × α)) (k k' : κ) (v : α) :
+    (setKey l k v).lookup k' = if k' = k then some v else l.lookup k' := by
+  unfold setKey
+  by_cases h : k' = k
+  · subst h; simp [List.lookup]
+  · have hb : (k' == k) = false := by simp [h]
+    simp only [List.lookup, hb, lookup_dropKey, h, ↓reduceIte]
 
-theorem lookup_some_of_filter {l : List (κ × α)} {f : κ × α → Bool} {k : κ} {v : α}
-    (h : (l.filter f).lookup k = some v) (hf : ∀ p q : κ × α, p.1 = q.1 → f p = f q) :
-    l.lookup k = some v := by
+theorem length_dropKey_le (l : List (κ × α)) (e : κ) : (dropKey l e).length ≤ l.length := by
+  unfold dropKey; exact List.length_filter_le _ _
+
+theorem length_dropKey_lt (l : List (κ × α)) (v : κ) (h : (l.lookup v).isSome) :
+    (dropKey l v).length < l.length := by
   induction l with
   | nil => simp at h
   | cons a l ih =>
-    by_cases hk : k = a.1
-    · subst hk
-      by_cases hfa : f a
-      · simpa [List.filter, hfa, List.lookup] using h
-      · -- every entry with this key is filtered out
-        exfalso
-        have : (List.filter f (a :: l)).lookup a.1 = none := by
-          rw [List.lookup_eq_none_iff]
-          intro p hp
-          obtain ⟨_, hp2⟩ := List.mem_filter.1 hp
-          simp only [bne_iff_ne, ne_eq]
-          intro heq
-          have := hf p a heq.symm
-          rw [this] at hp2
-          exact hfa hp2
-        rw [this] at h; cases h
-    · have hb : (k == a.1) = false := by simp [hk]
-      by_cases hfa : f a
-      · simp only [List.filter, hfa, List.lookup, hb] at h ⊢
-        exact ih h
-      · simp only [List.filter, hfa, List.lookup, hb] at h ⊢
-        exact ih h
+    by_cases ha : a.1 = v
+    · have hb : (a.1 != v) = false := by simp [ha]
+      have : (dropKey (a :: l) v).length ≤ l.length := by
+        unfold dropKey
+        simp only [List.filter, hb]
+        exact List.length_filter_le _ _
+      simp only [List.length_cons]; omega
+    · have hb : (v == a.1) = false := by simp [Ne.symm ha]
+      simp only [List.lookup, hb] at h
+      have := ih h
+      have hb2 : (a.1 != v) = true := by simp [ha]
+      unfold dropKey at this ⊢
+      simp only [List.filter, hb2, List.length_cons]
+      omega
+
+theorem lookup_of_dropKey {l : List (κ × α)} {e k : κ} {v : α} (h : (dropKey l e).lookup k = some v) :
+    l.lookup k = some v ∧ k ≠ e := by
+  rw [lookup_dropKey] at h
+  by_cases hk : k = e
+  · simp [hk] at h
+  · simp only [hk, ↓reduceIte] at h; exact ⟨h, hk⟩
 
 end assoc
 
@@ -80,29 +76,11 @@ theorem evictTo_lookup {α : Type} (n fuel : Nat) (vs : List Nat) (l : List (Nat
     unfold evictTo at h
     split at h
     · exact h
-    · split at h
-      · exact h
-      · have := ih _ _ h
-        rw [lookup_filter_ne] at this
-        split at this
-        · cases this
-        · exact this
-
-theorem filter_ne_length_lt {α : Type} (l : List (Nat × α)) (v : Nat) (h : (l.lookup v).isSome) :
-    (l.filter (fun p => p.1 ≠ v)).length < l.length := by
-  induction l with
-  | nil => simp at h
-  | cons a l ih =>
-    by_cases ha : a.1 = v
-    · have : (List.filter (fun p => decide (p.1 ≠ v)) (a :: l)).length ≤ l.length := by
-        simp only [List.filter, ha, ne_eq, not_true_eq_false, decide_false]
-        exact List.length_filter_le _ _
-      simp only [List.length_cons]; omega
-    · have hb : (v == a.1) = false := by simp [Ne.symm ha]
-      simp only [List.lookup, hb] at h
-      have := ih h
-      simp only [List.filter, ha, ne_eq, not_false_eq_true, decide_true, List.length_cons]
-      omega
+    · cases l with
+      | nil => exact h
+      | cons a rest =>
+        simp only at h
+        exact (lookup_of_dropKey (ih _ _ h)).1
 
 /-- … and gets down to the target, given fuel for every entry -/
 theorem evictTo_length {α : Type} (n fuel : Nat) (vs : List Nat) (l : List (Nat × α))
@@ -114,21 +92,24 @@ theorem evictTo_length {α : Type} (n fuel : Nat) (vs : List Nat) (l : List (Nat
     split
     · assumption
     · rename_i hlen
-      split
-      · simp
-      · rename_i k0 v0 rest
+      cases l with
+      | nil => simp
+      | cons a rest =>
+        simp only
         apply ih
-        have hk0 : ((((k0, v0) :: rest).lookup k0)).isSome := by simp [List.lookup]
-        have hdec : ∀ v, ((((k0, v0) :: rest).lookup v)).isSome →
-            (((k0, v0) :: rest).filter (fun p => p.1 ≠ v)).length < ((k0, v0) :: rest).length :=
-          fun v hv => filter_ne_length_lt _ v hv
+        have hk0 : (((a :: rest).lookup a.1)).isSome := by simp [List.lookup]
         cases vs with
-        | nil => have := hdec k0 hk0; simp only at this ⊢; omega
+        | nil =>
+          have := length_dropKey_lt (a :: rest) a.1 hk0
+          simp only at this ⊢; omega
         | cons v vs' =>
           simp only
           split
-          · rename_i hv; have := hdec v hv; omega
-          · have := hdec k0 hk0; omega
+          · rename_i hv
+            have := length_dropKey_lt (a :: rest) v hv
+            omega
+          · have := length_dropKey_lt (a :: rest) a.1 hk0
+            omega
 
 /-! ### A. UTXOCache -/
 
@@ -138,91 +119,81 @@ structure UtxoInv (db : TxDb) (s : Utxo) : Prop where
 
 /-- the FIFO is within the limit and reaches every cached reference -/
 structure UtxoBound (s : Utxo) : Prop where
-  fifo : s.inputs.length ≤ Nat.max s.max 1
+  fifo : s.inputs.length ≤ s.max ∨ s.inputs.length ≤ 1
   sync : ∀ k v, s.ref.lookup k = some v → k ∈ s.inputs
+
+theorem evictFront_spec (s : Utxo) :
+    (evictFront s).max = s.max ∧ (evictFront s).txc = s.txc ∧
+    (evictFront s).inputs.length = s.inputs.length - 1 ∧
+    (∀ k v, (evictFront s).ref.lookup k = some v → s.ref.lookup k = some v) ∧
+    ((∀ k v, s.ref.lookup k = some v → k ∈ s.inputs) →
+      ∀ k v, (evictFront s).ref.lookup k = some v → k ∈ (evictFront s).inputs) := by
+  unfold evictFront
+  cases hin : s.inputs with
+  | nil =>
+    simp only
+    exact ⟨trivial, trivial, by simp [hin], fun _ _ h => h, fun h k v hk => hin ▸ h k v hk⟩
+  | cons e rest =>
+    simp only
+    refine ⟨trivial, trivial, by simp, fun k v h => (lookup_of_dropKey h).1, ?_⟩
+    intro hs k v h
+    obtain ⟨h1, h2⟩ := lookup_of_dropKey h
+    have := hs k v h1
+    rcases List.mem_cons.1 this with h3 | h3
+    · exact absurd h3 h2
+    · exact h3
 
 theorem insertReference_inv {db : TxDb} {s : Utxo} (h : UtxoInv db s) (k : In) (v : Nat)
     (hv : ∃ outs, db.lookup k.tx = some outs ∧ outs[k.idx]? = some v) :
     UtxoInv db (insertReference s k v) := by
   unfold insertReference
-  refine ⟨?_, ?_⟩
-  · intro k' v' hl
-    simp only at hl
-    rw [lookup_cons_filter] at hl
-    split at hl
-    · rename_i hk; subst hk; cases hl; exact hv
-    · split at hl
-      · split at hl
-        · exact h.ref k' v' hl
-        · simp only at hl
-          rw [lookup_filter_ne] at hl
-          split at hl
-          · cases hl
-          · exact h.ref k' v' hl
-      · exact h.ref k' v' hl
-  · intro id tx hl
-    simp only at hl
-    split at hl
-    · split at hl
-      · exact h.txc id tx hl
-      · exact h.txc id tx hl
-    · exact h.txc id tx hl
+  have h1 : UtxoInv db (if s.inputs.length ≥ s.max then evictFront s else s) := by
+    split
+    · obtain ⟨_, e2, _, e4, _⟩ := evictFront_spec s
+      exact ⟨fun k v hl => h.ref k v (e4 k v hl), fun id tx hl => h.txc id tx (by rw [e2] at hl; exact hl)⟩
+    · exact h
+  generalize (if s.inputs.length ≥ s.max then evictFront s else s) = s1 at h1
+  refine ⟨?_, h1.txc⟩
+  intro k' v' hl
+  simp only at hl
+  rw [lookup_setKey] at hl
+  split at hl
+  · rename_i hk; subst hk; cases hl; exact hv
+  · exact h1.ref k' v' hl
 
 theorem insertReference_max (s : Utxo) (k : In) (v : Nat) : (insertReference s k v).max = s.max := by
   unfold insertReference
   simp only
   split
-  · split <;> rfl
+  · exact (evictFront_spec s).1
   · rfl
 
 theorem insertReference_bound {s : Utxo} (h : UtxoBound s) (k : In) (v : Nat) :
     UtxoBound (insertReference s k v) := by
-  have hmax := insertReference_max s k v
-  unfold insertReference at hmax ⊢
-  by_cases hge : s.inputs.length ≥ s.max
-  · cases hin : s.inputs with
-    | nil =>
-      simp only [hge, hin, ↓reduceIte] at hmax ⊢
-      refine ⟨?_, ?_⟩
-      · simp only [List.nil_append, List.length_singleton]
-        exact Nat.le_max_right _ _
-      · intro k' v' hl
-        rw [lookup_cons_filter] at hl
-        split at hl
-        · rename_i hk; subst hk; simp
-        · have := h.sync k' v' hl
-          rw [hin] at this; cases this
-    | cons e rest =>
-      simp only [hge, hin, ↓reduceIte] at hmax ⊢
-      have hf := h.fifo
-      rw [hin] at hf
-      refine ⟨?_, ?_⟩
-      · simp only [List.length_append, List.length_cons, List.length_nil] at hf ⊢
-        omega
-      · intro k' v' hl
-        rw [lookup_cons_filter] at hl
-        split at hl
-        · rename_i hk; subst hk; simp
-        · rw [lookup_filter_ne] at hl
-          split at hl
-          · cases hl
-          · rename_i hne
-            have := h.sync k' v' hl
-            rw [hin] at this
-            rcases List.mem_cons.1 this with h1 | h1
-            · exact absurd h1 hne
-            · exact List.mem_append.2 (Or.inl h1)
-  · simp only [hge, ↓reduceIte] at hmax ⊢
-    refine ⟨?_, ?_⟩
-    · have : s.inputs.length < s.max := by omega
-      simp only [List.length_append, List.length_singleton]
-      have := Nat.le_max_left s.max 1
+  unfold insertReference
+  have h1 : (if s.inputs.length ≥ s.max then evictFront s else s).max = s.max ∧
+      ((if s.inputs.length ≥ s.max then evictFront s else s).inputs.length + 1 ≤ s.max ∨
+       (if s.inputs.length ≥ s.max then evictFront s else s).inputs.length + 1 ≤ 1) ∧
+      (∀ k v, (if s.inputs.length ≥ s.max then evictFront s else s).ref.lookup k = some v →
+        k ∈ (if s.inputs.length ≥ s.max then evictFront s else s).inputs) := by
+    obtain ⟨e1, _, e3, _, e5⟩ := evictFront_spec s
+    have hf := h.fifo
+    split
+    · refine ⟨e1, ?_, e5 h.sync⟩
+      rw [e3]
       omega
-    · intro k' v' hl
-      rw [lookup_cons_filter] at hl
-      split at hl
-      · rename_i hk; subst hk; simp
-      · exact List.mem_append.2 (Or.inl (h.sync k' v' hl))
+    · refine ⟨rfl, ?_, h.sync⟩
+      omega
+  generalize (if s.inputs.length ≥ s.max then evictFront s else s) = s1 at h1
+  obtain ⟨hm, hlen, hsync⟩ := h1
+  refine ⟨?_, ?_⟩
+  · simp only [List.length_append, List.length_singleton, hm]; exact hlen
+  · intro k' v' hl
+    simp only at hl ⊢
+    rw [lookup_setKey] at hl
+    split at hl
+    · rename_i hk; subst hk; simp
+    · exact List.mem_append.2 (Or.inl (hsync k' v' hl))
 
 theorem getTransaction_spec {db : TxDb} {s : Utxo} (h : UtxoInv db s) (victims : List Nat) (id : Nat) :
     (getTransaction db s victims id).1 = db.lookup id ∧ UtxoInv db (getTransaction db s victims id).2 ∧
@@ -239,7 +210,7 @@ theorem getTransaction_spec {db : TxDb} {s : Utxo} (h : UtxoInv db s) (victims :
       intro id' tx' hl
       unfold insertTransaction at hl
       simp only at hl
-      rw [lookup_cons_filter] at hl
+      rw [lookup_setKey] at hl
       split at hl
       · rename_i hid; subst hid; cases hl; exact hdb
       · exact h.txc id' tx' (evictTo_lookup _ _ _ _ _ _ hl)
@@ -248,9 +219,9 @@ theorem getTransaction_spec {db : TxDb} {s : Utxo} (h : UtxoInv db s) (victims :
 theorem insertTransaction_bound (s : Utxo) (victims : List Nat) (id : Nat) (tx : List Nat) :
     (insertTransaction s victims id tx).txc.length ≤ s.max + 1 := by
   unfold insertTransaction
-  simp only [List.length_cons]
+  simp only [setKey, List.length_cons]
   have h1 := evictTo_length s.max s.txc.length victims s.txc (by omega)
-  have h2 := List.length_filter_le (fun p : Nat × List Nat => decide (p.1 ≠ id)) (evictTo s.max s.txc.length victims s.txc)
+  have h2 := length_dropKey_le (evictTo s.max s.txc.length victims s.txc) id
   omega
 
 /-! ### B. indexed transaction cache -/
